@@ -126,6 +126,19 @@ func (p Program) tyCallFunctionObjArgs() *types.Signature {
 	return p.callFOArgs
 }
 
+// func(callable *Object, args **Object, nargsf uintptr, kwnames *Object) *Object
+func (p Program) tyVectorcall() *types.Signature {
+	if p.vectorcall == nil {
+		paramObjPtr := p.paramObjPtr()
+		paramArgs := types.NewParam(token.NoPos, nil, "", p.PyObjectPtrPtr().raw.Type)
+		paramUintptr := types.NewParam(token.NoPos, nil, "", p.Uintptr().raw.Type)
+		params := types.NewTuple(paramObjPtr, paramArgs, paramUintptr, paramObjPtr)
+		results := types.NewTuple(paramObjPtr)
+		p.vectorcall = types.NewSignatureType(nil, nil, nil, params, results, false)
+	}
+	return p.vectorcall
+}
+
 /*
 // func(*Object, *Object, *Object) *Object
 func (p Program) tyCall() *types.Signature {
@@ -349,6 +362,20 @@ func (b Builder) pyCall(fn Expr, args []Expr) (ret Expr) {
 	sig := fn.raw.Type.(*types.Signature)
 	params := sig.Params()
 	n := params.Len()
+	for i, arg := range args {
+		if arg.kind == vkPyFuncRef { // a Python function as an argument: the object, not the global that holds it
+			args[i] = b.Load(arg)
+		}
+	}
+	if sig.Variadic() && !HasNameValist(sig) {
+		// an ordinary Go variadic parameter: the last argument is a slice of objects
+		rest := args[n-1]
+		if n > 1 {
+			rest = b.BuiltinCall("append", b.SliceLit(rest.Type, args[:n-1]...), rest)
+		}
+		call := pkg.pyFunc("PyObject_Vectorcall", prog.tyVectorcall())
+		return b.Call(call, fn, b.SliceData(rest), b.SliceLen(rest), prog.Nil(prog.PyObjectPtr()))
+	}
 	switch n {
 	case 0:
 		call := pkg.pyFunc("PyObject_CallNoArgs", prog.tyCallNoArgs())
